@@ -139,7 +139,9 @@ def gen_cases(ctx):
             chunks.append(raw[prev:c]); prev = c
         chunks.append(raw[prev:])
         cases.append(("S", chunks))
-    for n in list(range(0, 70)) + [255, 256, 257, 1000, 1 << 20, (1 << 20) + 1]:
+    # ... up to the largest lengths whose bound is still an int (the bound is arithmetic on the length, whatever the daemon's limits)
+    for n in list(range(0, 70)) + [255, 256, 257, 1000, 1 << 20, (1 << 20) + 1, (1 << 29) + 1, (1 << 30) - 1, 1 << 30, (1 << 30) + 1,
+                                   1200000000, 1431655765, 1610612732, 1610612733]:
         cases.append(("L", n))
     return cases
 
